@@ -268,20 +268,85 @@ func panicKey(one string, fallback string) string {
 }
 
 type bStats struct {
-	searchCmds, searchNonEmpty, fetchCmds, fetchCompared, fetchUnspecified, listCmds, miscCmds int64
+	searchCmds, searchNonEmpty, fetchCmds, fetchCompared, fetchMissing, fetchUnspecified, listCmds, miscCmds int64
 	crashes                                                                                   int64
 }
 
 var bst bStats
 var bViol sync.Map // key → *int64
 
+// bViolation records a part-B violation. The artefact kept per key is the one with the shortest
+// (then lexicographically smallest) script, so that the result does not depend on worker timing;
+// flushBViolations re-executes it before reporting.
+type bCand struct {
+	rank string
+	det  map[string]interface{}
+}
+
+var bCandMu sync.Mutex
+var bCands = map[string]bCand{}
+
 func bViolation(key string, det map[string]interface{}) {
 	v, _ := bViol.LoadOrStore(key, new(int64))
 	atomic.AddInt64(v.(*int64), 1)
-	if _, dup := reported.LoadOrStore(key, true); dup {
-		return
+	sc, _ := det["script"].(script)
+	last := ""
+	var all []string
+	for _, st := range sc.Steps {
+		all = append(all, st.Cmd)
+		last = st.Cmd
 	}
-	run.Violation(key, det)
+	rank := fmt.Sprintf("%06d|%s|%s", len(last), last, strings.Join(all, "|"))
+	bCandMu.Lock()
+	if c, ok := bCands[key]; !ok || rank < c.rank {
+		bCands[key] = bCand{rank, det}
+	}
+	bCandMu.Unlock()
+}
+
+var tagRe = regexp.MustCompile(`(^|\n|\(TAG )[a-z]+[0-9_]+`)
+
+func normReply(raw string) string { return tagRe.ReplaceAllString(raw, "${1}T") }
+
+// replyOfScript runs a part-B script on a fresh store and returns the raw reply of every step.
+func replyOfScript(sc script) []string {
+	srv := newServer("INBOX")
+	defer srv.close()
+	buildStore(srv)
+	c := srv.dial("s0_")
+	defer c.hangup()
+	var out []string
+	for _, st := range sc.Steps {
+		r := c.do(expandCmd(st.Cmd))
+		out = append(out, normReply(r.raw)+"|"+r.problem)
+		if c.closed {
+			c = srv.dial("s0_")
+		}
+	}
+	return out
+}
+
+func flushBViolations() {
+	bCandMu.Lock()
+	defer bCandMu.Unlock()
+	var keys []string
+	for k := range bCands {
+		keys = append(keys, k)
+	}
+	sort.Strings(keys)
+	for _, k := range keys {
+		c := bCands[k]
+		if sc, ok := c.det["script"].(script); ok {
+			first := replyOfScript(sc)
+			for i := 0; i < 3; i++ {
+				if again := replyOfScript(sc); strings.Join(again, "\x00") != strings.Join(first, "\x00") {
+					run.EngineError("part B counterexample for %s is not reproducible: %q vs %q", k, first, again)
+				}
+			}
+			c.det["re_execution"] = first
+		}
+		run.Violation(k, c.det)
+	}
 }
 
 func bScript(box string, save bool, cmds ...string) script {
@@ -805,7 +870,20 @@ func sectionExpectation(cm *corpusMsg, f fsection) (alts []string, specified boo
 			return []string{h, h + "\r\n"}, true
 		}
 	}
+	if cm.partMissing(f.path) {
+		// the part does not exist: whatever the specifier, a server can only refuse or return
+		// nothing (NIL or an empty string); data would belong to some other part
+		return []string{""}, true
+	}
 	return nil, false
+}
+
+func (f fsection) pathText() string {
+	var p []string
+	for _, n := range f.path {
+		p = append(p, strconv.Itoa(n))
+	}
+	return strings.Join(p, ".")
 }
 
 var bigOffsets = []int64{1 << 32, 1<<63 - 1}
@@ -972,11 +1050,20 @@ func checkFetch(srv *server, box string, seq int, cm *corpusMsg, f fsection, p p
 		atomic.AddInt64(&bst.fetchUnspecified, 1)
 		return
 	}
+	missing := cm.partMissing(f.path)
 	if r.status != "OK" {
+		if missing {
+			atomic.AddInt64(&bst.fetchMissing, 1)
+			return true // refusing a part that does not exist is fine
+		}
 		bViolation("fetch-section-refused:"+f.spec, det(nil))
 		return
 	}
-	atomic.AddInt64(&bst.fetchCompared, 1)
+	if missing {
+		atomic.AddInt64(&bst.fetchMissing, 1)
+	} else {
+		atomic.AddInt64(&bst.fetchCompared, 1)
+	}
 	// the body item of the response
 	var item *sexp
 	var name string
@@ -1048,6 +1135,9 @@ func checkFetch(srv *server, box string, seq int, cm *corpusMsg, f fsection, p p
 		return false
 	}
 	contentOK = true
+	if missing {
+		return // section name echo and \Seen are not defined for a part that does not exist
+	}
 	// the response names the section (and the origin octet of a partial)
 	wantName := "BODY[" + f.canon() + "]"
 	if p.has && p.off < 1<<32 {
@@ -1273,7 +1363,8 @@ func partB() {
 	t2 := time.Now()
 	partBList()
 	partBMisc()
-	fmt.Printf("  [B] search %d commands (%.1fs), fetch %d commands (%d compared with the section table, %d on unspecified sections) (%.1fs), list %d, misc %d; %d commands ended with a dead connection\n",
-		bst.searchCmds, t1.Sub(t0).Seconds(), bst.fetchCmds, bst.fetchCompared, bst.fetchUnspecified, t2.Sub(t1).Seconds(), bst.listCmds, bst.miscCmds, bst.crashes)
+	flushBViolations()
+	fmt.Printf("  [B] search %d commands (%.1fs), fetch %d commands (%d compared with the section table, %d on parts that do not exist, %d on unspecified sections) (%.1fs), list %d, misc %d; %d commands ended with a dead connection\n",
+		bst.searchCmds, t1.Sub(t0).Seconds(), bst.fetchCmds, bst.fetchCompared, bst.fetchMissing, bst.fetchUnspecified, t2.Sub(t1).Seconds(), bst.listCmds, bst.miscCmds, bst.crashes)
 	_ = vk.Q
 }
